@@ -47,3 +47,20 @@ Print Assumptions totals_independent_of_call_pattern.
 Example vli_split_example :
   vli_run (fst (vli_run (VGo 0 0) [0x80; 0x81])) [0x02; 7] = (VDone (2 * 16384 + 128), [7]).
 Proof. vm_compute. reflexivity. Qed.
+
+(** Encoder side: rc_shift_low may stop in the middle of its loop when the
+    output buffer is full and is resumed by the next call.  For every state,
+    every sequence of buffer sizes (zero included): once a call completes, the
+    state - bytes written included - is that of the unbounded function, i.e. the
+    range encoder's output does not depend on how the output space is sliced.
+    (Tied to range_encoder.h by the white-box runs of C01 with 0..4-byte buffers.) *)
+From XZ Require Import Lzma RcAbs RcDec RcEnc RcSlice.
+Theorem range_encoder_is_independent_of_output_slicing : forall grants c c',
+  (1 <= ecs c)%nat -> run_r grants c = Some c' -> c' = shift_low c.
+Proof. exact shift_low_resumable. Qed.
+Print Assumptions range_encoder_is_independent_of_output_slicing.
+
+Example resumable_example :
+  run_r [0; 1; 0; 0; 2; 5]%nat {| elow := 4294967296 + 5; ecs := 4; erange := 1; ecache := 17; eor := [9] |}
+  = Some (shift_low {| elow := 4294967296 + 5; ecs := 4; erange := 1; ecache := 17; eor := [9] |}).
+Proof. vm_compute. reflexivity. Qed.
